@@ -79,6 +79,7 @@ struct State {
 
 thread_local! {
     static ON_DEALLOC: Cell<Option<fn(usize, usize)>> = const { Cell::new(None) };
+    static REFUSAL_FD: Cell<i32> = const { Cell::new(-1) };
     static WINDOW: Cell<bool> = const { Cell::new(false) };
     static TID: Cell<u32> = const { Cell::new(0) };
     static ST: UnsafeCell<State> = const { UnsafeCell::new(State {
@@ -127,6 +128,7 @@ impl State {
         let sz = layout.size();
         if self.fail_at != 0 && self.inwin_allocs == self.fail_at {
             self.push_event(Event { kind: EvKind::Refused, addr: 0, size: sz, align: a, tid });
+            report_refusal(sz, a);
             return std::ptr::null_mut();
         }
         // place at address ≡ a (mod 2a), after a red zone
@@ -140,6 +142,7 @@ impl State {
             None => usize::MAX,
         };
         if end > self.base as usize + self.size || self.nblocks >= self.cap_blocks {
+            report_refusal(sz, a);
             self.push_event(Event { kind: EvKind::Refused, addr: 0, size: sz, align: a, tid });
             return std::ptr::null_mut();
         }
@@ -285,6 +288,50 @@ pub fn reset() {
     });
     WINDOW.with(|w| w.set(false));
     TID.with(|t| t.set(0));
+}
+
+extern "C" {
+    fn write(fd: i32, buf: *const u8, n: usize) -> isize;
+}
+/// Report every refused request on `fd` as "REFUSED size=<n> align=<a>" (async-signal-safe,
+/// no allocation): used by child processes that die in the allocation-error abort.
+pub fn set_refusal_fd(fd: i32) {
+    let _ = REFUSAL_FD.try_with(|c| c.set(fd));
+}
+fn report_refusal(size: usize, align: usize) {
+    let fd = REFUSAL_FD.try_with(|c| c.get()).unwrap_or(-1);
+    if fd < 0 {
+        return;
+    }
+    let mut buf = [0u8; 96];
+    let mut n = 0;
+    let mut put = |s: &[u8], n: &mut usize| {
+        for b in s {
+            buf[*n] = *b;
+            *n += 1;
+        }
+    };
+    fn digits(mut v: usize, out: &mut [u8; 24]) -> usize {
+        let mut i = 24;
+        loop {
+            i -= 1;
+            out[i] = b'0' + (v % 10) as u8;
+            v /= 10;
+            if v == 0 {
+                break;
+            }
+        }
+        i
+    }
+    let mut d = [0u8; 24];
+    put(b"REFUSED size=", &mut n);
+    let i = digits(size, &mut d);
+    put(&d[i..], &mut n);
+    put(b" align=", &mut n);
+    let i = digits(align, &mut d);
+    put(&d[i..], &mut n);
+    put(b"\n", &mut n);
+    unsafe { write(fd, buf.as_ptr(), n) };
 }
 
 /// Callback invoked after every arena deallocation (address, size). Must not unwind.
